@@ -22,3 +22,7 @@ MANIFEST = dict(
     technique="Coq proof (invariants by induction over histories of executable step functions, incl. the separate critical sections of Flight/Flights as atomic steps) + differential run model vs implementation after every operation + direct oracles on the implementation",
     category="proof",
 )
+
+# end-to-end tie (integrator): real caching clients against the fake server, direct oracle only (docs/csc.md)
+SPEC["observers"].append(dict(cmd="obs_csc", args=["-oracle", "c06"], n={"quick": 150, "thorough": 4000}))
+SPEC["rule"] += "; obs_csc: concurrent cached readers (DoCache / DoMultiCache / MGetCache) on a real client against the fake server with writers on another connection, per-key and flush invalidations, PX / virtual-clock expiries, disconnects and aborted transactions, checked by the C06 oracle of docs/csc.md"
